@@ -73,7 +73,7 @@ fn main() {
                     sc.iter().map(|s| format!("{} (depth {}, alphabet {:?})", s.name, s.bounds.depth, s.alphabet.iter().map(|m| m.name.clone()).collect::<Vec<_>>())).collect::<Vec<_>>().join("; ")
                 );
                 let extra: Option<std::thread::JoinHandle<(serde_json::Value, Vec<explore::Violation>, Vec<String>)>> = if id == "C02" {
-                    Some(std::thread::spawn(props::golden::check))
+                    Some(std::thread::spawn(props::c02::extra_pass))
                 } else if id == "C19" {
                     Some(std::thread::spawn(props::c19::boundary_pass))
                 } else {
@@ -133,6 +133,7 @@ fn main() {
         "serve" => wire::serve_main(&args[2..]),
         "digest" => props::golden::digest_main(&args[2]),
         "c19-boundary" => props::c19::boundary_main(&args[2]),
+        "c02-timeshift" => props::c02::timeshift_main(),
         "golden-record" => props::golden::record(),
         "rwlock-probe" => props::c11::rwlock_probe_child(),
         "bench" => {
